@@ -20,6 +20,8 @@
 #include "QXmppClientExtension.h"
 #include "QXmppClient_p.h"
 #include "QXmppE2eeExtension.h"
+#include "QXmppE2eeMetadata.h"
+#include "QXmppIq.h"
 #include "QXmppLogger.h"
 #include "QXmppMessageHandler.h"
 #include "QXmppOutgoingClient.h"
@@ -257,6 +259,20 @@ static std::vector<Field> catalogue()
                 m.setFallbackMarkers(v); }, {} });
         F.push_back(f);
     }
+    // ---- application-supplied unknown extensions (QXmppStanza::setExtensions): how applications attach custom payload
+    {
+        Field f { "extensions", true, {} };
+        for (int n : { 1, 2 })
+            f.variants.push_back({ "extensions*" + std::to_string(n), [n](Msg &m) {
+                QXmppElementList l;
+                for (int i = 0; i < n; i++) {
+                    QXmppElement e; e.setTagName(u"app-ext"_q); e.setAttribute(u"xmlns"_q, u"verif:app"_q);
+                    e.setAttribute(u"n"_q, QString::number(i)); e.setValue(u"SECRETappext%1"_q.arg(i));
+                    l << e;
+                }
+                m.setExtensions(l); }, { "SECRETappext0" } });
+        F.push_back(f);
+    }
     // ---- XEP-0033 (QXmppStanza)
     one("extendedAddresses", false, [](Msg &m) {
         QXmppExtendedAddress a; a.setType(u"cc"_q); a.setJid(u"PUBcc@example.org"_q); a.setDescription(u"PUBaddrdesc"_q);
@@ -414,6 +430,9 @@ static std::map<std::string, std::string> valuesOf(const Msg &m)
         v["callInviteElement"] = s;
     } else v["callInviteElement"] = "";
     { std::string s; for (auto &x : m.extendedAddresses()) s += q(x.type()) + "/" + q(x.jid()) + "/" + q(x.description()) + ";"; v["extendedAddresses"] = s; }
+    { std::string s; for (const auto &x : m.extensions()) if (!(x.tagName() == u"enc" && x.attribute(u"xmlns"_q) == u"verif:e2ee"))
+          s += q(x.tagName()) + "{" + q(x.attribute(u"xmlns"_q)) + "}" + q(x.attribute(u"n"_q)) + "=" + q(x.value()) + ";";
+      v["extensions"] = s; }
     // fallbackMarkers deliberately absent: "explicit fallback markers … aside"
     return v;
 }
@@ -476,13 +495,28 @@ class DummyE2ee : public QXmppClientExtension, public QXmppE2eeExtension, public
 public:
     template<typename T> static QXmppTask<T> ready(T &&v) { QXmppPromise<T> p; p.finish(std::move(v)); return p.task(); }
 
+    // The encrypted payload is a PUBLIC element of the outgoing message, like OMEMO's <encrypted/> (QXmppMessage::omemoElement,
+    // written in the public block).  It is added by overriding the virtual serializeExtensions, so the application's own
+    // extensions() stay exactly as the application set them.
+    class EncMsg : public QXmppMessage
+    {
+    public:
+        QByteArray cipher;
+        EncMsg(QXmppMessage &&m, QByteArray c) : QXmppMessage(std::move(m)), cipher(std::move(c)) { }
+        void serializeExtensions(QXmlStreamWriter *w, QXmpp::SceMode mode, const QString &base) const override
+        {
+            QXmppMessage::serializeExtensions(w, mode, base);
+            if (mode & QXmpp::ScePublic) {
+                w->writeStartElement(QStringLiteral("enc")); w->writeDefaultNamespace(ENC_NS);
+                w->writeCharacters(QString::fromLatin1(cipher)); w->writeEndElement();
+            }
+        }
+    };
     QXmppTask<MessageEncryptResult> encryptMessage(QXmppMessage &&message, const std::optional<QXmppSendStanzaParams> &) override
     {
         // as ManagerPrivate::encryptMessageForRecipients: the message object keeps all its fields; the encrypted payload is added
-        QXmppElement e; e.setTagName(QStringLiteral("enc")); e.setAttribute(QStringLiteral("xmlns"), ENC_NS);
-        e.setValue(QString::fromLatin1(envelope(message).toBase64()));
-        message.setExtensions({ e });
-        return ready<MessageEncryptResult>(std::make_unique<QXmppMessage>(std::move(message)));
+        QByteArray c = envelope(message).toBase64();
+        return ready<MessageEncryptResult>(std::unique_ptr<QXmppMessage>(new EncMsg(std::move(message), std::move(c))));
     }
     QXmppTask<MessageDecryptResult> decryptMessage(QXmppMessage &&message) override
     {
@@ -498,8 +532,31 @@ public:
             }
         return ready<MessageDecryptResult>(MessageDecryptResult { NotEncrypted {} });
     }
-    QXmppTask<IqEncryptResult> encryptIq(QXmppIq &&, const std::optional<QXmppSendStanzaParams> &) override
-    { return ready<IqEncryptResult>(IqEncryptResult { QXmppError { QStringLiteral("unsupported"), {} } }); }
+    // as QXmppOmemoManager::encryptIq + createSceEnvelope: a fresh outer IQ with id/type/lang/from/to only; the payload
+    // (or, for an error reply, the error) is the envelope content
+    class EncIq : public QXmppIq
+    {
+    public:
+        QByteArray cipher;
+        void toXmlElementFromChild(QXmlStreamWriter *w) const override
+        {
+            w->writeStartElement(QStringLiteral("enc")); w->writeDefaultNamespace(ENC_NS);
+            w->writeCharacters(QString::fromLatin1(cipher)); w->writeEndElement();
+        }
+    };
+    QByteArray lastIqContent;
+    QXmppTask<IqEncryptResult> encryptIq(QXmppIq &&iq, const std::optional<QXmppSendStanzaParams> &) override
+    {
+        QByteArray content;
+        { QXmlStreamWriter w(&content); if (auto err = iq.errorOptional()) err->toXml(&w); else iq.toXmlElementFromChild(&w); }
+        lastIqContent = content;
+        auto out = std::make_unique<EncIq>();
+        out->setId(iq.id()); out->setType(iq.type()); out->setLang(iq.lang()); out->setFrom(iq.from()); out->setTo(iq.to());
+        out->cipher = content.toBase64();
+        return ready<IqEncryptResult>(IqEncryptResult { std::unique_ptr<QXmppIq>(std::move(out)) });
+    }
+    void feedDecryptedIq(const QDomElement &el, bool encrypted)
+    { injectIq(el, encrypted ? std::optional<QXmppE2eeMetadata>(QXmppE2eeMetadata()) : std::nullopt); }
     QXmppTask<IqDecryptResult> decryptIq(const QDomElement &) override { return ready<IqDecryptResult>(IqDecryptResult { NotEncrypted {} }); }
     bool isEncrypted(const QDomElement &el) override
     {
@@ -548,6 +605,14 @@ static std::vector<Child> withoutEnc(std::vector<Child> v)
 {
     v.erase(std::remove_if(v.begin(), v.end(), [](const Child &c) { return c.tag == "enc" && c.ns == "verif:e2ee"; }), v.end());
     return v;
+}
+
+// Every symptom that concerns the unknown-extension field (or its element) is reported under ONE key: it is one defect.
+static const char *EXT_KEY = "C17:unknown-extensions-outside-envelope";
+static void failOn(const std::string &key, const std::string &subject, const std::string &replay)
+{
+    bool ext = subject == "extensions" || subject == "app-ext" || subject.rfind("app-ext{", 0) == 0;
+    oracleFail(ext ? std::string(EXT_KEY) : key + subject, (ext ? "[" + key + subject + "] " : std::string()) + replay);
 }
 
 struct Case { std::vector<std::pair<const Field *, const Variant *>> parts; };
@@ -613,16 +678,16 @@ static void runCase(const Case &cs, const std::vector<Field> &cat)
     for (auto &p : cs.parts)
         if (p.first->payload)
             for (auto &s : p.second->secrets)
-                if (pub.find(s) != std::string::npos) { oracleFail("C17:leak:" + p.first->name, spec + " public=" + pub); ok = false; }
+                if (pub.find(s) != std::string::npos) { failOn("C17:leak:", p.first->name, spec + " public=" + pub); ok = false; }
     for (auto &c : kids[1])
-        if (!publicAllowed(c, fb)) { oracleFail("C17:public-element:" + c.tag + "{" + c.ns + "}", spec + " public=" + pub); ok = false; }
+        if (!publicAllowed(c, fb)) { failOn("C17:public-element:", c.tag + "{" + c.ns + "}", spec + " public=" + pub); ok = false; }
     // the secrets must be somewhere: in the content (otherwise the check above is vacuous)
     std::string envs(env.constData(), size_t(env.size()));
     bool receiptSuppressed = !m.receiptId().isEmpty();
     for (auto &p : cs.parts)
         if (p.first->payload && !(p.first->name == "receiptRequested" && receiptSuppressed))
             for (auto &s : p.second->secrets)
-                if (envs.find(s) == std::string::npos) { oracleFail("C17:payload-missing-from-content:" + p.first->name, spec + " content=" + envs); ok = false; }
+                if (envs.find(s) == std::string::npos) { failOn("C17:payload-missing-from-content:", p.first->name, spec + " content=" + envs); ok = false; }
     // 2. partition: all == pub (+) content, explicit fallback aside; fallback markers in both parts
     {
         std::multiset<std::string> all, parts;
@@ -644,7 +709,7 @@ static void runCase(const Case &cs, const std::vector<Field> &cat)
         if (all != parts2) {
             std::set<std::string> tags;
             for (auto &c : kids[2]) if (!isFallbackish(c, fb) && parts2.count(c.canon) != all.count(c.canon)) tags.insert(c.tag);
-            for (auto &t : tags) oracleFail("C17:toxml-split:" + t, spec + " toXml(SceSensitive)=" + std::string(bytes[2].constData()));
+            for (auto &t : tags) failOn("C17:toxml-split:", t, spec + " toXml(SceSensitive)=" + std::string(bytes[2].constData()));
             if (tags.empty()) oracleFail("C17:toxml-split:?", spec);
             ok = false;
         }
@@ -654,7 +719,7 @@ static void runCase(const Case &cs, const std::vector<Field> &cat)
     if (receiptSuppressed) want["receiptRequested"] = "0";     // documented: an ack never carries a request (not an SCE matter)
     auto got = valuesOf(real);
     for (auto &kv : want)
-        if (got[kv.first] != kv.second) { oracleFail("C17:recover:" + kv.first, spec + " want=" + kv.second + " got=" + got[kv.first]); ok = false; }
+        if (got[kv.first] != kv.second) { failOn("C17:recover:", kv.first, spec + " want=" + kv.second + " got=" + got[kv.first]); ok = false; }
     if (!real.extensions().isEmpty()) {
         // an element of ours that the receive path did not understand
         for (const auto &e : real.extensions()) stat("unknown_after_recover_" + S(e.tagName()));
@@ -663,8 +728,8 @@ static void runCase(const Case &cs, const std::vector<Field> &cat)
     for (auto &kv : want)
         if (got2[kv.first] != kv.second) {
             bool sameAsReal = got[kv.first] == got2[kv.first];
-            oracleFail(sameAsReal ? "C17:recover:" + kv.first : "C17:toxml-split:" + (kv.first == "extendedAddresses" ? std::string("addresses") : kv.first),
-                       spec + " (toXml/parse pair) want=" + kv.second + " got=" + got2[kv.first]);
+            failOn(sameAsReal ? "C17:recover:" : "C17:toxml-split:", (!sameAsReal && kv.first == "extendedAddresses") ? std::string("addresses") : kv.first,
+                   spec + " (toXml/parse pair) want=" + kv.second + " got=" + got2[kv.first]);
             ok = false;
         }
     // sanity of the harness itself: the unsplit message round-trips (otherwise a "recover" failure is not about the split)
@@ -689,9 +754,9 @@ static void runCase(const Case &cs, const std::vector<Field> &cat)
         for (auto &p : cs.parts)
             if (p.first->payload)
                 for (auto &sct : p.second->secrets)
-                    if (wire.find(sct) != std::string::npos) { oracleFail("C17:send-path:leak:" + p.first->name, spec + " wire=" + wire); ok = false; }
+                    if (wire.find(sct) != std::string::npos) { failOn("C17:send-path:leak:", p.first->name, spec + " wire=" + wire); ok = false; }
         for (auto &c : wkids)
-            if (!publicAllowed(c, fb)) { oracleFail("C17:send-path:public-element:" + c.tag + "{" + c.ns + "}", spec + " wire=" + wire); ok = false; }
+            if (!publicAllowed(c, fb)) { failOn("C17:send-path:public-element:", c.tag + "{" + c.ns + "}", spec + " wire=" + wire); ok = false; }
         {
             std::multiset<std::string> a, b;
             for (auto &c : wkids) a.insert(c.canon);
@@ -703,7 +768,7 @@ static void runCase(const Case &cs, const std::vector<Field> &cat)
             if (!got) { oracleFail(std::string("C17:client-receive:") + what + ":not-delivered", spec + " wire=" + wire); ok = false; return; }
             auto g = valuesOf(*got);
             for (auto &kv : wantv)
-                if (g[kv.first] != kv.second) { oracleFail(std::string("C17:client-receive:") + what + ":" + kv.first, spec + " want=" + kv.second + " got=" + g[kv.first] + " wire=" + wire); ok = false; }
+                if (g[kv.first] != kv.second) { failOn(std::string("C17:client-receive:") + what + ":", kv.first, spec + " want=" + kv.second + " got=" + g[kv.first] + " wire=" + wire); ok = false; }
         };
         if (!wroot.isNull()) {
             R.client.receive(wroot);
@@ -714,7 +779,8 @@ static void runCase(const Case &cs, const std::vector<Field> &cat)
             QByteArray inj = "<thread>INJECTEDthread</thread><subject>INJECTEDsubject</subject>"
                              "<received xmlns=\"urn:xmpp:receipts\" id=\"INJECTEDreceipt\"/>"
                              "<displayed xmlns=\"urn:xmpp:chat-markers:0\" id=\"INJECTEDmarker\"/>";
-            std::string injOp = "c recvinj thread{} subject{} received{urn:xmpp:receipts} displayed{urn:xmpp:chat-markers:0}";
+            inj += "<app-ext xmlns=\"verif:app\" n=\"9\">INJECTEDext</app-ext>";
+            std::string injOp = "c recvinj thread{} subject{} received{urn:xmpp:receipts} displayed{urn:xmpp:chat-markers:0} app-ext{verif:app}";
             if (injectBody) { inj += "<body>INJECTEDbody</body>"; injOp += " body{}"; }
             QByteArray ibytes = wbytes;
             int at = ibytes.lastIndexOf("</message>");
@@ -727,6 +793,8 @@ static void runCase(const Case &cs, const std::vector<Field> &cat)
             auto wanti = want;
             if (injectBody) wanti["e2eeFallbackBody"] = "INJECTEDbody";     // plaintext <body/> of an encrypted message IS the fallback text
             expectDelivered("injected", R.delivered.size() == 1 ? &R.delivered[0] : nullptr, wanti);
+            if (R.delivered.size() == 1 && valuesOf(R.delivered[0])["extensions"].find("INJECTEDext") != std::string::npos) {
+                oracleFail("C17:client-receive:injected:plaintext-extension-accepted", spec + " wire=" + std::string(ibytes.constData())); ok = false; }
             stat("client_roundtrips");
         }
     }
@@ -789,6 +857,38 @@ int main(int argc, char **argv)
         stat("info_unknown_extension_in_public_bytes", toXml(m, QXmpp::ScePublic).contains("APPPAYLOAD") ? 1 : 0);
         stat("info_unknown_extension_in_toXml_sensitive_bytes", toXml(m, QXmpp::SceSensitive).contains("APPPAYLOAD") ? 1 : 0);
         stat("info_unknown_extension_in_content_bytes", envelope(m).contains("APPPAYLOAD") ? 1 : 0);
+    }
+    // ---- encrypted IQs (not messages, so outside C17's own quantifier; cheap to watch): what QXmppClient hands to the stream for
+    // sendSensitive(iq) / sendSensitiveIq(iq) is the extension's outer IQ only, and the automatic error reply to an encrypted
+    // request neither leaves the envelope nor echoes the request's payload
+    {
+        class SecretIq : public QXmppIq
+        {
+        public:
+            void toXmlElementFromChild(QXmlStreamWriter *w) const override
+            { w->writeStartElement(QStringLiteral("query")); w->writeDefaultNamespace(QStringLiteral("verif:iq")); w->writeCharacters(QStringLiteral("SECRETiqpayload")); w->writeEndElement(); }
+        };
+        auto mk = [] { SecretIq iq; iq.setType(QXmppIq::Set); iq.setId(QStringLiteral("iq1")); iq.setTo(QStringLiteral("juliet@example.org/balcony")); return iq; };
+        auto check = [&](const char *what, bool mustBeEncrypted, bool contentHasSecret) {
+            bool ok = rig.sent.size() == 1;
+            std::string wire = ok ? S(rig.sent.back()) : std::string();
+            std::string content(rig.ext->lastIqContent.constData(), size_t(rig.ext->lastIqContent.size()));
+            if (!ok) oracleFail(std::string("C17:iq:") + what + ":packets", std::to_string(rig.sent.size()));
+            if (wire.find("SECRETiqpayload") != std::string::npos) { oracleFail(std::string("C17:iq:") + what + ":payload-in-cleartext", wire); ok = false; }
+            if (mustBeEncrypted && (wire.find("<enc ") == std::string::npos || wire.find("<error") != std::string::npos || wire.find("<query") != std::string::npos)) {
+                oracleFail(std::string("C17:iq:") + what + ":not-inside-envelope", wire); ok = false; }
+            if (mustBeEncrypted && contentHasSecret != (content.find("SECRETiqpayload") != std::string::npos)) {
+                oracleFail(std::string("C17:iq:") + what + (contentHasSecret ? ":payload-missing-from-envelope" : ":error-reply-echoes-payload"), content); ok = false; }
+            if (ok) oraclePass()++;
+            stat("iq_checks");
+            sample(std::string("iq ") + what + "  WIRE=" + wire);
+        };
+        rig.sent.clear(); rig.ext->lastIqContent.clear(); rig.client.sendSensitive(mk()); check("sendSensitive", true, true);
+        rig.sent.clear(); rig.ext->lastIqContent.clear(); rig.client.sendSensitiveIq(mk()); check("sendSensitiveIq", true, true);
+        QDomDocument d;
+        d.setContent(QByteArray("<iq xmlns='jabber:client' type='get' id='iq2' from='romeo@example.org/orchard'><query xmlns='verif:iq'>SECRETiqpayload</query></iq>"), true);
+        rig.sent.clear(); rig.ext->lastIqContent.clear(); rig.ext->feedDecryptedIq(d.documentElement(), true); check("error-reply-to-encrypted", true, false);
+        rig.sent.clear(); rig.ext->lastIqContent.clear(); rig.ext->feedDecryptedIq(d.documentElement(), false); check("error-reply-to-plain", false, false);
     }
     stat("fields_in_catalogue", (long long)cat.size());
     finish();
